@@ -142,7 +142,7 @@ class Runner:
         for role in op.get("listeners", []):
             o = ent["listeners"].get(role)
             if o is None:
-                lcls = getattr(mod, pn + "_" + role)
+                lcls = getattr(mod, pn + "_" + role.split("#")[0])
                 o = lcls(tag) if getattr(lcls, "_sim_takes_tag", False) else lcls()
                 o._sim_tag = tag
                 o._sim_role = role
@@ -386,7 +386,7 @@ class Runner:
         for role in op["listeners"]:
             o = ent["listeners"].get(role)
             if o is None:
-                lcls = getattr(mod, render.pyname(p) + "_" + role)
+                lcls = getattr(mod, render.pyname(p) + "_" + role.split("#")[0])
                 o = lcls(ent.get("tag_as", op["inst"])) if getattr(lcls, "_sim_takes_tag", False) else lcls()
                 o._sim_tag = ent.get("tag_as", op["inst"])
                 o._sim_role = role
